@@ -503,7 +503,7 @@ Definition w_payer : tx := mkTx 2 [MEth 2 100 (mkRaw 8 true 0 8789)] [mkSlot Non
 Lemma forged_accepted : forall v, v_check_sender v = false ->
   ante w_verify w_recover w_addr_of_pk w_eth_sender v w_ctx w_state w_forged
   = Ok [(100, mkAcc (Some (Secp 666)) 1 5); (200, mkAcc (Some (Secp 200)) 3 6)].
-Proof. intros [cs ct] E. simpl in E. subst cs. destruct ct; vm_compute; reflexivity. Qed.
+Proof. intros [cs ct e1 e2] E. simpl in E. subst cs. destruct ct, e1, e2; vm_compute; reflexivity. Qed.
 
 Lemma forged_not_authorised :
   ~ Forall2 (Authorised w_verify w_recover w_addr_of_pk w_eth_sender w_ctx w_state w_forged) (signers w_forged) (t_slots w_forged).
@@ -518,7 +518,7 @@ Qed.
 Lemma payer_accepted : forall v, v_continue v = false ->
   ante w_verify w_recover w_addr_of_pk w_eth_sender v w_ctx w_state2 w_payer
   = Ok [(100, mkAcc (Some (Secp 1)) 1 5); (200, mkAcc (Some (Secp 200)) 4 6)].
-Proof. intros [cs ct] E. simpl in E. subst ct. destruct cs; vm_compute; reflexivity. Qed.
+Proof. intros [cs ct e1 e2] E. simpl in E. subst ct. destruct cs, e1, e2; vm_compute; reflexivity. Qed.
 
 Lemma payer_not_authorised :
   ~ Forall2 (Authorised w_verify w_recover w_addr_of_pk w_eth_sender w_ctx w_state2 w_payer) (signers w_payer) (t_slots w_payer).
@@ -563,7 +563,7 @@ Definition e_eip712 : tx := mkTx 5 [MPlain 1 [100]] [mkSlot (Some (Secp 1)) MDir
 Lemma ex_honest_accepted : forall v,
   Auth.ante e_verify e_recover w_addr_of_pk w_eth_sender v w_ctx w_state e_honest
   = Ok [(100, mkAcc None 0 5); (200, mkAcc (Some (Secp 200)) 4 6)].
-Proof. intros [[] []]; vm_compute; reflexivity. Qed.
+Proof. intros [[] [] [] []]; vm_compute; reflexivity. Qed.
 Lemma ex_raw_honest_accepted :
   Auth.ante e_verify e_recover w_addr_of_pk w_eth_sender repaired w_ctx w_state e_raw_honest
   = Ok [(100, mkAcc (Some (Secp 1)) 1 5); (200, mkAcc (Some (Secp 200)) 3 6)].
@@ -987,3 +987,76 @@ Proof.
   intros a x _ Au. apply authorised_checker; auto.
 Qed.
 End CheckerSoundFull.
+
+(* ------------------------------------------------------------------------------------------
+   The "exactly one message" rule of the Ethereum path is an obligation of each branch: the EIP-712
+   digest and the raw Ethereum transaction cover the FIRST message only. *)
+Definition e_batched : tx := mkTx 8 [MPlain 1 [100]; MPlain 9 [100]] [mkSlot (Some (Secp 1)) MDirect 77 0] None.
+Definition e_raw_batched : tx := mkTx 9 [MEth 2 100 (mkRaw 8 true 0 8789); MPlain 9 [100]] [mkSlot (Some (Secp 1)) MDirect 9 0] None.
+
+Lemma batched_accepted : forall v, v_eip_single v = false ->
+  Auth.ante x_verify e_recover w_addr_of_pk w_eth_sender v w_ctx w_state e_batched
+  = Ok [(100, mkAcc (Some (Secp 1)) 1 5); (200, mkAcc (Some (Secp 200)) 3 6)].
+Proof. intros [cs ct e1 e2] E. simpl in E. subst e1. destruct cs, ct, e2; vm_compute; reflexivity. Qed.
+Lemma raw_batched_accepted : forall v, v_raw_single v = false ->
+  Auth.ante x_verify e_recover w_addr_of_pk w_eth_sender v w_ctx w_state e_raw_batched
+  = Ok [(100, mkAcc (Some (Secp 1)) 1 5); (200, mkAcc (Some (Secp 200)) 3 6)].
+Proof. intros [cs ct e1 e2] E. simpl in E. subst e2. destruct cs, ct, e1; vm_compute; reflexivity. Qed.
+
+Lemma batched_not_authorised : forall t, t = e_batched \/ t = e_raw_batched ->
+  ~ Forall2 (Authorised x_verify e_recover w_addr_of_pk w_eth_sender w_ctx w_state t) (signers t) (t_slots t).
+Proof.
+  intros t Ht F. assert (S : signers t = [100] /\ exists x, t_slots t = [x]) by (destruct Ht; subst t; split; [reflexivity|eexists; reflexivity| reflexivity|eexists; reflexivity]).
+  destruct S as [S [x SL]]. rewrite S, SL in F. inversion F as [|? ? ? ? A _]; subst. clear F.
+  destruct A as (acc & G & Q & [K|[E|R]]).
+  - destruct K as (k & _ & V). discriminate.
+  - destruct E as (_ & d & Dg & _). unfold eth_digest_of in Dg.
+    destruct Ht; subst t; inversion SL; subst x; simpl in Dg; discriminate.
+  - destruct R as (id & snd & raw & M & _). destruct Ht; subst t; discriminate.
+Qed.
+
+Theorem accept_authorised_refuted_msgs_eip712 : forall v, v_eip_single v = false ->
+  exists verify recover addr_of_pk eth_sender c s t s',
+    Auth.ante verify recover addr_of_pk eth_sender v c s t = Ok s' /\
+    ~ Forall2 (Authorised verify recover addr_of_pk eth_sender c s t) (signers t) (t_slots t).
+Proof.
+  intros v E. exists x_verify, e_recover, w_addr_of_pk, w_eth_sender, w_ctx, w_state, e_batched. eexists.
+  split; [apply batched_accepted; auto|apply batched_not_authorised; auto].
+Qed.
+Theorem accept_authorised_refuted_msgs_ethraw : forall v, v_raw_single v = false ->
+  exists verify recover addr_of_pk eth_sender c s t s',
+    Auth.ante verify recover addr_of_pk eth_sender v c s t = Ok s' /\
+    ~ Forall2 (Authorised verify recover addr_of_pk eth_sender c s t) (signers t) (t_slots t).
+Proof.
+  intros v E. exists x_verify, e_recover, w_addr_of_pk, w_eth_sender, w_ctx, w_state, e_raw_batched. eexists.
+  split; [apply raw_batched_accepted; auto|apply batched_not_authorised; auto].
+Qed.
+
+(* positive form: on the tree as it is, a DIRECT slot accepted on the Ethereum path (the account's
+   key -- on record, or attached for a first-time signer -- does not control the address) belongs to
+   a transaction with exactly one message *)
+Section SingleMessage.
+Variable verify : pkey -> signdoc -> sigv -> bool.
+Variable recover : digest -> sigv -> option addr.
+Variable addr_of_pk : pkey -> addr.
+Variable eth_sender : Z -> option addr.
+Theorem eth_path_single_message : forall v c s t s', sound_for v t = true ->
+  Auth.ante verify recover addr_of_pk eth_sender v c s t = Ok s' ->
+  forall i a x acc k, nth_error (signers t) i = Some a -> nth_error (t_slots t) i = Some x ->
+  get_acc s a = Some acc -> (a_pub acc = Some k \/ (a_pub acc = None /\ s_att x = Some k)) ->
+  addr_of_pk k <> a -> s_mode x = MDirect -> single_msg t = true.
+Proof.
+  intros v c s t s' SF H i a x acc k Ha Hx G PK NA MD.
+  destruct (ante_checked _ _ _ _ _ _ _ _ _ SF H) as (s1 & Hp & F).
+  destruct (Forall2_nth _ _ _ _ _ F i a x Ha Hx) as (acc1 & k1 & G1 & P1 & Q & D).
+  assert (K : k1 = k).
+  { destruct PK as [P|[P At]].
+    - rewrite (set_pubkeys_keeps_key _ _ _ _ Hp a acc k G P) in G1. inversion G1; subst. congruence.
+    - rewrite (set_pubkeys_installs _ _ _ _ i a x acc k Hp (signers_NoDup t) Ha Hx G P At) in G1.
+      inversion G1; subst. simpl in P1. congruence. }
+  subst k1. destruct D as [[A _]|[_ [[_ (d & Dg & _)]|(id & snd & raw & M & _)]]]; [contradiction| |].
+  - unfold eth_digest_of in Dg. rewrite MD in Dg. unfold single_msg.
+    destruct (t_msgs t) as [|m [|m' r]]; try discriminate; auto. destruct m; discriminate.
+  - unfold single_msg. rewrite M. reflexivity.
+Qed.
+End SingleMessage.
